@@ -15,8 +15,14 @@ from core.guards import atom, atoms_of, f_not, implies
 from core.loader import AnalysisError, FuncInfo, Repo, ancestors, calls_in, header, norm, own_nodes, parent
 from core.report import Result
 
-from .common import cfg_of, conds, dotted, guard_formula, truth, is_attr_call, loop_carried, loops_around, stmt_of, types_of, where
-from .tables import EVAL_GRAPH, MATCHER, RULE, SEARCHES
+from core.inline_stmt import inline_view
+
+from .c11_coll import Collections
+from .c11_lib import Fn, names_loaded, show
+from .common import assigned_names, cfg_of, conds, dotted, guard_formula, truth, is_attr_call, loop_carried, loops_around, stmt_of, types_of, upward_exposed, where
+from .tables import EVAL_GRAPH, EXPLICIT_QUERY, MATCHER, OTHER_QUERIES, RULE, SEARCHES
+
+EVAL_ARCH = "pytestarch.eval_structure.evaluable_architecture"
 
 CONVERTER = "pytestarch.eval_structure.module_name_converter"
 
@@ -146,96 +152,314 @@ def _if_of(stmt: ast.AST) -> ast.AST:
     return p if isinstance(p, ast.If) else stmt
 
 
+# --------------------------------------------------------------------------------------------------------------- C11.R3
+
+PARTIAL = "pytestarch.utils.partial_match_to_regex_converter"
+
+
+def _ctor_class(fn: Fn, call: ast.AST) -> str:
+    """Fully qualified name of the repo class a call expression constructs ('' if it is not a constructor call)."""
+    if not isinstance(call, ast.Call):
+        return ""
+    t = fn.type_of(call.func)
+    for m in (t[1] if t[0] == "union" else [t]):
+        if m[0] == "type":
+            return m[1]
+    return ""
+
+
+def _ctor_arg(fn: Fn, call: ast.Call, field_name: str) -> ast.AST | None:
+    """The argument a dataclass-style constructor call gives to `field_name` (keyword, or positional by field order)."""
+    for k in call.keywords:
+        if k.arg == field_name:
+            return k.value
+    ci = fn.repo.classes.get(_ctor_class(fn, call))
+    if ci is None:
+        return None
+    init = fn.repo.lookup_method(ci, "__init__")
+    if init is not None:
+        names = init.param_names[1:]
+    else:
+        names = [a for c in reversed(fn.repo.mro(ci)) for a in c.ann_attrs]
+    if field_name in names and names.index(field_name) < len(call.args):
+        return call.args[names.index(field_name)]
+    return None
+
+
+def _self_sinks(view: FuncInfo) -> list[tuple[ast.AST, ast.AST]]:
+    """(statement, stored value) for every store into state reachable from `self`."""
+    out = []
+    for n in own_nodes(view.node):
+        if isinstance(n, ast.Assign):
+            for t in n.targets:
+                if isinstance(t, (ast.Attribute, ast.Subscript)) and any(isinstance(x, ast.Name) and x.id == "self" for x in ast.walk(t)):
+                    out.append((n, n.value))
+        elif isinstance(n, ast.Call):
+            if isinstance(n.func, ast.Name) and n.func.id == "setattr" and len(n.args) == 3 and any(isinstance(x, ast.Name) and x.id == "self" for x in ast.walk(n.args[0])):
+                out.append((n, n.args[2]))
+            elif isinstance(n.func, ast.Attribute) and n.func.attr in ("extend", "append", "update", "add") and n.args and any(isinstance(x, ast.Name) and x.id == "self" for x in ast.walk(n.func.value)):
+                out.append((n, n.args[0]))
+    return out
+
+
 def run_r3(repo: Repo, res: Result) -> None:
+    T = types_of(repo)
     rule = repo.cls(RULE, "Rule")
     m = rule.methods.get("have_name_containing")
     if m is None:
         res.observe("Rule.have_name_containing no longer exists (deprecated form removed): C11.R3 not applicable")
         return
-    lambdas = [n for n in own_nodes(m.node) if isinstance(n, ast.Lambda)]
-    ok = False
-    for lam in lambdas:
-        b = lam.body
-        if isinstance(b, ast.Call) and dotted(b.func) == "ModuleNameRegexFilter":
-            arg = b.keywords[0].value if b.keywords else (b.args[0] if b.args else None)
-            if isinstance(arg, ast.Call) and dotted(arg.func) == "convert_partial_match_to_regex" and arg.args and dotted(arg.args[0]) == lam.args.args[0].arg:
-                ok = True
-    setm = [c for c in calls_in(m.node) if is_attr_call(c, "_set_modules")]
-    ok = ok and len(setm) == 1 and dotted(setm[0].args[0]) == m.param_names[1]
-    res.add("C11.R3", f"{m.relpath}::{m.qualname}::partial name -> regex filter", ok, "each partial name becomes ModuleNameRegexFilter(convert_partial_match_to_regex(name))" if ok else "the partial-name form is not the regex filter of its translation", where(m, m.node), kind="flow")
-    sm = rule.methods.get("_set_modules")
-    comp = [n for n in own_nodes(sm.node) if isinstance(n, ast.ListComp)]
-    ok = len(comp) == 1 and not comp[0].generators[0].ifs and dotted(comp[0].generators[0].iter) == sm.param_names[1] and isinstance(comp[0].elt, ast.Call) and dotted(comp[0].elt.func) == sm.param_names[2]
-    res.add("C11.R3", f"{sm.relpath}::{sm.qualname}::one filter per name", ok, "every given name yields exactly one filter" if ok else "not every given name yields a filter", where(sm, sm.node), kind="structural")
+    view = inline_view(repo, m, T)
+    fn = Fn(repo, view)
+    co = Collections(fn)
+    param = view.param_names[1]
+    key = f"{m.relpath}::{m.qualname}::partial name -> regex filter"
+    relevant: list[tuple[ast.AST, list]] = []
+    unknown: list[str] = []
+    for stmt, value in _self_sinks(view):
+        d = co.normalise(co.describe(value))
+        mine = [c for c in d.contribs if any(b.root and dotted(b.source) == param for b in c.binders) or (not c.binders and c.elt is not None and param in names_loaded(c.elt))]
+        if mine:
+            relevant.append((stmt, d.contribs))
+            unknown += d.unknown
+            for r_ in d.removals:
+                unknown.append(f"elements are removed (`{norm(r_.node, 60)}`)")
+    if not relevant:
+        res.undecide("C11.R3", key, f"no store of filters built from `{param}` into the rule's state was recognised", where(view, view.node))
+        return
+    if unknown:
+        res.undecide("C11.R3", key, "the list of filters is not recognised: " + "; ".join(unknown[:2]), where(view, view.node))
+        return
+    bad: list[str] = []
+    dropped: list[str] = []
+    for stmt, contribs in relevant:
+        for c in contribs:
+            if len(c.binders) > 1 or (c.binders and not (c.binders[0].root and dotted(c.binders[0].source) == param)):
+                bad.append(f"`{norm(stmt, 70)}` stores filters that are not built from the elements of `{param}` alone")
+                continue
+            if c.binders and len(c.binders[0].names) != 1:
+                bad.append(f"`{norm(stmt, 70)}`: elements of `{param}` are unpacked")
+                continue
+            var = c.binders[0].names[0] if c.binders else param
+            for e, pol in c.conds:
+                if not c.binders and isinstance(e, ast.Call) and isinstance(e.func, ast.Name) and e.func.id == "isinstance":
+                    continue
+                dropped.append(f"a filter is only created if `{'' if pol else 'not '}{show(e)}`")
+            elt = c.elt
+            ok = _ctor_class(fn, elt).endswith(".ModuleNameRegexFilter")
+            if ok:
+                arg = _ctor_arg(fn, elt, "name")
+                callee = fn.callee(arg) if isinstance(arg, ast.Call) else None
+                ok = callee is not None and callee.module.name == PARTIAL and callee.name == "convert_partial_match_to_regex" and len(arg.args) + len(arg.keywords) == 1 and dotted([*arg.args, *[k.value for k in arg.keywords]][0]) == var
+            if not ok:
+                bad.append(f"an element `{var}` of `{param}` becomes `{show(elt)}`, not ModuleNameRegexFilter(name=convert_partial_match_to_regex({var}))")
+    res.add("C11.R3", key, not bad, "each partial name becomes ModuleNameRegexFilter(convert_partial_match_to_regex(name))" if not bad else bad[0] + ": the partial-name form is not the regex filter of its translation", where(view, view.node), kind="flow")
+    # every given name yields a filter, and the list reaches the rule's configuration on every path
+    from core.guards import f_or
+
+    first = next((c for _, cs in relevant for c in cs if c.node is not None and parent(c.node) is not None), None)
+    ctx = guard_formula(view, stmt_of(first.node)) if first is not None else None
+    stored = f_or([guard_formula(view, stmt) for stmt, _ in relevant])
+    if ctx is not None and not implies(ctx, stored):
+        dropped.append("the list of filters is not stored on every path")
+    res.add("C11.R3", f"{m.relpath}::{m.qualname}::one filter per name", not dropped, "every given name yields exactly one filter, which is stored in the rule" if not dropped else dropped[0] + ": not every given name yields a filter", where(view, view.node), kind="structural")
 
 
-ITER_COPIES = ("set", "frozenset", "list", "tuple", "sorted")
+# --------------------------------------------------------------------------------------------------------------- C11.R4
+
+
+def _allow_r4(caller: FuncInfo, callee: FuncInfo) -> bool:
+    # the searches themselves stay calls: they are what the rule looks for
+    return callee.module.name != SEARCHES
+
+
+def _queries(repo: Repo) -> list[FuncInfo]:
+    """Non-abstract implementations of the three public graph queries of EvaluableArchitecture."""
+    base = repo.cls(EVAL_ARCH, "EvaluableArchitecture")
+    out: list[FuncInfo] = []
+    for name in (EXPLICIT_QUERY, *OTHER_QUERIES):
+        impls = [m for m in repo.implementations(base, name) if not _is_stub(m)]
+        if not impls:
+            raise AnalysisError(f"no implementation of the public query EvaluableArchitecture.{name} found")
+        out += impls
+    return out
+
+
+def _is_stub(m: FuncInfo) -> bool:
+    """Abstract method / protocol member: nothing but a docstring, `pass`, `...` or `raise NotImplementedError`."""
+    if m.is_abstract:
+        return True
+    for s in m.node.body:
+        if isinstance(s, ast.Pass) or (isinstance(s, ast.Expr) and isinstance(s.value, ast.Constant)):
+            continue
+        if isinstance(s, ast.Raise) and s.exc is not None and "NotImplementedError" in norm(s.exc):
+            continue
+        return False
+    return True
+
+
+def _strip_copies(e: ast.AST) -> ast.AST:
+    while isinstance(e, ast.Call) and isinstance(e.func, ast.Name) and e.func.id in ("list", "tuple", "sorted", "set", "frozenset") and len(e.args) == 1:
+        e = e.args[0]
+    return e
+
+
+def _value_candidates(fn: Fn, v: ast.AST) -> list[ast.AST]:
+    """The expressions a stored value may stand for: a local with several definitions yields one candidate per definition."""
+    ctx, orig = fn.ctx_of(v)
+    if isinstance(v, ast.Name) and ctx is fn.fi and isinstance(orig, ast.Name) and parent(orig) is not None:
+        defs = fn.reaching(orig.id, orig)
+        if len(defs) > 1 and all(d.kind == "assign" and d.value is not None for d in defs):
+            return [fn.expand(d.value) for d in defs]
+    return [v]
+
+
+def _carried(fn: Fn, co: Collections, loop: ast.For, acc: set[str]) -> set[str]:
+    """State that survives from one iteration of `loop` to a later one: re-bound names read before they are bound again,
+    containers changed in place in the body and read there, and any read of the result container itself."""
+    targets = {n.id for n in ast.walk(loop.target) if isinstance(n, ast.Name)}
+    inside = {id(n) for st in loop.body for n in ast.walk(st)}
+    changed = assigned_names(loop.body)
+    for name, evs in co.events().items():
+        if any(id(ev[2]) in inside for ev in evs):
+            changed.add(name)
+    exposed = upward_exposed(loop.body, targets)
+    out = (exposed & changed) - targets - acc
+    # the result container may only be written (under its own key), never read
+    for st in loop.body:
+        for n in ast.walk(st):
+            if isinstance(n, ast.Name) and n.id in acc and isinstance(n.ctx, ast.Load):
+                p = parent(n)
+                if isinstance(p, ast.Subscript) and isinstance(p.ctx, ast.Store) and p.value is n:
+                    continue
+                if isinstance(p, ast.Attribute) and p.attr in ("setdefault", "update") and isinstance(parent(p), ast.Call):
+                    continue
+                out.add(n.id)
+    return out
 
 
 def run_r4(repo: Repo, res: Result) -> None:
-    eg = repo.cls(EVAL_GRAPH, "EvaluableArchitectureGraph")
-    searches = {f.name for f in repo.module(SEARCHES).all_funcs}
+    T = types_of(repo)
     n = 0
-    for name in ("get_dependencies", "any_dependencies_from_dependents_to_modules_other_than_dependent_upons", "any_other_dependencies_on_dependent_upons_than_from_dependents"):
-        m = eg.methods.get(name)
-        if m is None:
-            raise AnalysisError(f"EvaluableArchitectureGraph.{name} not found")
-        params = m.param_names[1:3]
-        calls = [c for c in calls_in(m.node) if isinstance(c.func, ast.Name) and c.func.id in searches]
-        if len(calls) != 1:
-            raise AnalysisError(f"{m.fq}: expected exactly one search call")
-        call = calls[0]
-        lps = [l for l in loops_around(call, m.node) if isinstance(l, ast.For)]
-        if len(lps) != 1:
-            raise AnalysisError(f"{m.fq}: search call is not inside exactly one loop")
-        lp = lps[0]
-        # which locals are plain copies of the parameters (set(param) etc.)
-        copies: dict[str, str] = {p: p for p in params}
-        filtered: dict[str, ast.AST] = {}
-        for s in own_nodes(m.node):
-            if isinstance(s, ast.Assign) and isinstance(s.targets[0], ast.Name):
-                v = s.value
-                t = s.targets[0].id
-                if isinstance(v, ast.Call) and isinstance(v.func, ast.Name) and v.func.id in ITER_COPIES and len(v.args) == 1 and dotted(v.args[0]) in copies and not v.keywords and t not in filtered:
-                    if t in copies and copies[t] != copies[dotted(v.args[0])]:
-                        filtered[t] = s
-                    copies[t] = copies[dotted(v.args[0])]
-                elif t in copies or any(dotted(x) in copies for x in ast.walk(v) if isinstance(x, ast.Name)) and t.endswith("_set"):
-                    filtered[t] = s
-        loop_vars = [x.id for x in ast.walk(lp.target) if isinstance(x, ast.Name)]
-        it = lp.iter
-        iter_srcs = [dotted(a) for a in it.args] if isinstance(it, ast.Call) and dotted(it.func) == "product" else [dotted(it)]
+    for m in _queries(repo):
+        view = inline_view(repo, m, T, allow=_allow_r4)
+        fn = Fn(repo, view)
+        co = Collections(fn)
+        params = [p for p in view.param_names[1:]]
+        rets = [s for s in own_nodes(view.node) if isinstance(s, ast.Return) and s.value is not None]
+        if not rets:
+            raise AnalysisError(f"{m.fq}: returns nothing")
+        contribs, removals, unknown = [], [], []
+        accs: set[str] = set()
+        for r in rets:
+            if isinstance(r.value, ast.Name):
+                accs.add(r.value.id)
+            d = co.normalise(co.describe(r.value))
+            contribs += d.contribs
+            removals += d.removals
+            unknown += d.unknown
+        anchor = rets[0]
+        loops = []
+        for c in contribs:
+            for b in c.binders:
+                if isinstance(b.loop, (ast.For, ast.AsyncFor)) and b.loop not in loops:
+                    loops.append(b.loop)
+        key_node = loops[0] if loops else (contribs[0].node if contribs and contribs[0].node is not None else anchor)
+        base_key = repo.key(view, key_node)
+        if unknown or not contribs:
+            res.undecide("C11.R4", base_key, "the construction of the query result is not recognised: " + ("; ".join(unknown[:2]) or "no entry is ever stored"), where(view, key_node))
+            continue
+        # ---- all keys: one entry per element of the given module collections, nothing filtered
+        bad: list[str] = []
+        key_params: list[str] = []
+        for c in contribs:
+            for b in c.binders:
+                src = dotted(b.source)
+                if not b.root or src not in params:
+                    bad.append(f"the entries range over `{norm(b.source, 60)}`, which is not one of the given module collections")
+                elif src not in key_params:
+                    key_params.append(src)
+            if not c.binders:
+                bad.append(f"`{norm(c.node, 60)}` stores a single fixed entry")
+            for e, pol in c.source_conds:
+                bad.append(f"the keys are filtered by `{'' if pol else 'not '}{norm(e, 90)}`")
+        for r_ in removals:
+            bad.append(f"entries are removed again (`{norm(r_.node, 60)}`)")
         n += 1
-        bad = [s for s in iter_srcs if s not in copies or s in filtered]
         res.add(
             "C11.R4",
-            repo.key(m, lp) + " [all keys]",
+            base_key + " [all keys]",
             not bad,
-            f"one search per element of {[copies.get(s, s) for s in iter_srcs]} (duplicates removed only)" if not bad else f"the loop ranges over `{bad[0]}`, which is not the full set of the given modules (`{header(filtered[bad[0]]) if bad[0] in filtered else norm(it)}`): a subject/object of the batch gets no judgement of its own",
-            where(m, lp),
+            f"one entry per element of {key_params} (duplicates removed only)" if not bad else bad[0] + ": a subject/object of the batch gets no judgement of its own",
+            where(view, key_node),
             kind="structural",
         )
-        # arguments of the search: graph, loop variables, whole sets - nothing else
-        allowed = {"self._graph", *loop_vars, *[c for c in copies if c not in filtered]}
-        extra = [norm(a) for a in [*call.args, *[k.value for k in call.keywords]] if dotted(a) not in allowed]
+        # ---- independent searches: the value of a key is a search over the graph, the key and whole given collections only
+        bad = []
+        for c in contribs:
+            bnames = {x for b in c.binders for x in b.names}
+            if c.value is None:
+                bad.append(f"`{norm(c.node, 60)}` does not store a search result under a key")
+                continue
+            for cand in _value_candidates(fn, c.value):
+                call = _strip_copies(cand)
+                searches_in = [x for x in ast.walk(cand) if isinstance(x, ast.Call) and (lambda cs: bool(cs) and all(f.module.name == SEARCHES for f in cs))(fn.callees(x)[0])]
+                if not searches_in:
+                    bad.append(f"the value `{norm(cand, 80)}` stored for a key is not computed by a graph search for that key (it is derived from other state)")
+                    continue
+                if call is not searches_in[0] or len(searches_in) != 1:
+                    others = sorted({x.id for x in ast.walk(cand) if isinstance(x, ast.Name) and x.id in fn.mutated} - bnames)
+                    bad.append(f"the search result is post-processed (`{norm(cand, 80)}`)" + (f" using `{', '.join(others)}`" if others else ""))
+                    continue
+                for a in [*call.args, *[k.value for k in call.keywords]]:
+                    if isinstance(a, ast.Name) and a.id in bnames:
+                        continue
+                    if isinstance(a, ast.Attribute) and dotted(a).startswith("self.") and _is_graph(fn, a):
+                        continue
+                    ctx, orig = fn.ctx_of(a)
+                    whole = False
+                    if ctx is fn.fi and parent(orig) is not None:
+                        da = co.normalise(co.describe(orig))
+                        whole = not da.unknown and not da.removals and len(da.contribs) == 1 and not da.contribs[0].conds and len(da.contribs[0].binders) == 1 and da.contribs[0].binders[0].root and dotted(da.contribs[0].binders[0].source) in params and isinstance(da.contribs[0].elt, ast.Name) and da.contribs[0].elt.id in da.contribs[0].binders[0].names
+                    if not whole:
+                        bad.append(f"the search also receives `{norm(a, 60)}`")
         n += 1
         res.add(
             "C11.R4",
-            repo.key(m, stmt_of(call)) + " [independent searches]",
-            not extra,
-            "each search receives only the graph, its own key and the whole opposite set" if not extra else f"the search also receives `{', '.join(extra)}`: state is shared between the searches of one batch, so a batched rule is no longer the conjunction of the single rules",
-            where(m, call),
+            base_key + " [independent searches]",
+            not bad,
+            "each search receives only the graph, its own key and the whole opposite set" if not bad else bad[0] + ": state is shared between the searches of one batch, so a batched rule is no longer the conjunction of the single rules",
+            where(view, key_node),
             kind="flow",
         )
-        carried = loop_carried(lp)
+        # ---- no state carried from one key to the next
+        carried: set[str] = set()
+        for lp in loops:
+            carried |= _carried(fn, co, lp, accs)
         n += 1
-        res.add("C11.R4", repo.key(m, lp) + " [no loop-carried state]", not carried, "no variable carries a value from one key to the next" if not carried else f"variable(s) {sorted(carried)} carry values between iterations", where(m, lp), kind="flow")
-        # result keyed by the loop key(s)
-        stores = [s for s in ast.walk(lp) if isinstance(s, ast.Assign) and isinstance(s.targets[0], ast.Subscript)]
-        ok = len(stores) == 1 and all(v in norm(stores[0].targets[0].slice) for v in loop_vars) and not conds(m, stores[0])[len(conds(m, lp)):]
+        res.add("C11.R4", base_key + " [no loop-carried state]", not carried, "no variable carries a value from one key to the next" if not carried else f"variable(s) {sorted(carried)} carry values between the iterations for different keys", where(view, key_node), kind="flow")
+        # ---- result per key
+        bad = []
+        for c in contribs:
+            bnames = {x for b in c.binders for x in b.names}
+            missing = sorted(bnames - names_loaded(c.elt)) if c.elt is not None else sorted(bnames)
+            if missing:
+                bad.append(f"the key `{norm(c.elt, 60) if c.elt is not None else '?'}` does not identify `{', '.join(missing)}`")
+            for e, pol in c.own_conds:
+                bad.append(f"the entry is stored only if `{'' if pol else 'not '}{norm(e, 80)}`")
         n += 1
-        res.add("C11.R4", repo.key(m, lp) + " [result per key]", ok, "the result is stored under the key of the iteration, unconditionally" if ok else "the result of a search is not stored under its own key for every iteration", where(m, lp), kind="structural")
+        res.add("C11.R4", base_key + " [result per key]", not bad, "the result is stored under the key of the iteration, unconditionally" if not bad else bad[0] + ": the result of a search is not stored under its own key for every key", where(view, key_node), kind="structural")
     res.floor("C11.R4", 12, n)
+
+
+def _is_graph(fn: Fn, a: ast.AST) -> bool:
+    t = fn.type_of(a)
+    for mm in (t[1] if t[0] == "union" else [t]):
+        if mm[0] == "cls":
+            ci = fn.repo.classes.get(mm[1])
+            if ci is not None and any(c.name == "AbstractGraph" for c in fn.repo.mro(ci)):
+                return True
+    return False
 
 
 def run(repo: Repo) -> Result:
